@@ -69,6 +69,12 @@ def gen_cases(tier, rng):
     cases.append('G:a:f=0 arg:a,xray:b0:init=0 G:b:f=0 arg:b,xray:b1:init=0 argv:- exp:setup mut:shared-key')
     cases.append('G:a:f=0 arg:a,xray:b0:init=0 G:b:f=0 arg:a,yankee:b1:init=0 argv:- exp:setup mut:shared-key')
     cases.append('G:m0:f=0 arg:output:b0:init=0 G:m1:f=0 arg:out:b1:init=0 argv:2d2d6f7574 exp:b0=0;b1=1 mut:none')
+    # the same key in two members in every definition order (both handlers exist first)
+    for o in ('0,1', '1,0'):
+        for k0, k1 in (('x', 'x'), ('x,xray', 'x'), ('x', 'x,xray'), ('xray', 'y,xray'), ('x,xray', 'x,yankee'), ('x,xray', 'y,xray')):
+            cases.append('G:a:f=0 arg:%s:b0:init=0 G:b:f=0 arg:%s:b1:init=0 argv:- exp:setup mut:shared-key order:%s' % (k0, k1, o))
+    # valid lines with interleaved definitions
+    cases.append('G:a:f=0 arg:l:b0:init=0 arg:m:i0: G:b:f=0 arg:x:b1:init=0 arg:y:i1: argv:2d6c,2d79,34,2d78 exp:b0=1;b1=1;i0=0;i1=4 mut:none order:1,0,1,0')
     guard = 0
     while len(cases) < n and guard < n * 30:
         guard += 1
@@ -112,8 +118,16 @@ def gen_cases(tier, rng):
             if any(x.slot == 'b3' for x in args):
                 continue
             mem2 = [list(m) for m in mem]
-            mem2[-1].append(dup)
-            cases.append(_line(mem2, mcons, [], ('exp:setup', 'mut:shared-key')))
+            # the duplicate goes into any other member, at any position, and the definitions are made in a random
+            # interleaving over the members (all handlers exist before the first argument is defined)
+            tgt = rng.range(1, len(mem2) - 1)
+            mem2[tgt].insert(rng.below(len(mem2[tgt]) + 1), dup)
+            extra = ['exp:setup', 'mut:shared-key']
+            if rng.chance(2, 3):
+                order = [j for j, m in enumerate(mem2) for _ in m]
+                rng.shuffle(order)
+                extra.append('order:' + ','.join(map(str, order)))
+            cases.append(_line(mem2, mcons, [], extra))
     return {'cases': cases, 'exhaustive': False,
             'scopes': ['%d random configurations partitioned over 1..3 members; productions/mutations %s' % (len(cases), stats)]}
 
